@@ -19,7 +19,7 @@ tvars == <<vars, tid, l>>
 ToSet(s) == {s[i] : i \in DOMAIN s}
 ParamOf(h) == [ n |-> h.n, cap |-> h.cap, conc |-> h.conc, retexc |-> h.retexc, fail |-> ToSet(h.fail),
                 prefail |-> ToSet(h.prefail), srcfail |-> h.srcfail, srcbase |-> h.srcbase,
-                maybreak |-> h.maybreak, mode |-> h.mode ]
+                maybreak |-> h.maybreak, mode |-> h.mode, subfail |-> h.subfail ]
 
 Evs == TraceLog[tid].ev
 E == Evs[l]
@@ -54,6 +54,7 @@ TCalls    == /\ Is("Calls") /\ Terminated
              /\ UNCHANGED vars /\ Step
 
 TSilent == /\ \/ FeederPull \/ FeederSrcEnd \/ FeederSrcRaise \/ FeederCheckStop \/ FeederPreFail \/ FeederSubmit
+              \/ FeederSubmitRaise
               \/ FeederPut \/ FeederPutEnd \/ FeederPutExc
               \/ WorkerTake
               \/ \E i \in 1..p.n : (WorkerSetRunning(i) \/ WorkerSkip(i) \/ WorkerStart(i) \/ WorkerFinish(i))
